@@ -1,7 +1,44 @@
 import CddVerif.Driver.Basic
-/-! Driver ops for C08 (line protocol; see Main.lean). Only Mathlib-free imports here. -/
-namespace Driver.C08
-open Lean Driver
+import CddVerif.Driver.C01
+import CddVerif.Properties.C08Google
+import CddVerif.Properties.C08Numpy
+/-! Driver ops for C08 (line protocol; see Main.lean). Only Mathlib-free imports here.
 
-def ops : List (String × Handler) := []
+`c08.google` / `c08.numpy` run the very `hopG` / `hopN` the fixpoint theorems of `Properties/C08Google.lean` and
+`Properties/C08Numpy.lean` are about, round after round, and report the theorems' decidable hypotheses
+(`InDomainG` / `InDomainN`, `NoVictim`); the harness compares every round with the real emit → parse hop. -/
+namespace Driver.C08
+open Lean Driver Doc DocGN
+
+def rJ : R IR → Json
+  | .ok ir => Json.mkObj [("ir", Driver.C01.irJ ir)]
+  | .raises e => Json.mkObj [("raises", Json.str e)]
+  | .outside w => Json.mkObj [("outside", Json.str w)]
+
+/-- the results of rounds 1..n (stops after the first round that does not answer with an interface) -/
+def runRounds (hop : IR → R IR) : Nat → IR → List (R IR)
+  | 0, _ => []
+  | n + 1, ir => match hop ir with
+    | .ok ir' => .ok ir' :: runRounds hop n ir'
+    | x => [x]
+
+def ops : List (String × Handler) := [
+  ("c08.google", fun j => do
+    let ir ← Driver.C01.irOf (← j.getObjVal? "ir")
+    let et := (getBool j "emit_types").toOption.getD true
+    let ww := (getBool j "word_wrap").toOption.getD true
+    let edd := (getBool j "edd").toOption.getD true
+    let n := (j.getObjValAs? Nat "rounds").toOption.getD 3
+    return Json.mkObj [("indomain", Json.bool (C01Google.inDomainGB ir)),
+                       ("novictim", Json.bool (decide (C08Google.NoVictim edd ir))),
+                       ("rounds", Json.arr ((runRounds (C08Google.hopG et ww edd) n ir).map rJ).toArray)]),
+  ("c08.numpy", fun j => do
+    let ir ← Driver.C01.irOf (← j.getObjVal? "ir")
+    let ww := (getBool j "word_wrap").toOption.getD true
+    let edd := (getBool j "edd").toOption.getD true
+    let n := (j.getObjValAs? Nat "rounds").toOption.getD 3
+    return Json.mkObj [("indomain", Json.bool (C01Numpy.inDomainNB ir)),
+                       ("novictim", Json.bool (decide (C08Numpy.NoVictim edd ir))),
+                       ("rounds", Json.arr ((runRounds (C08Numpy.hopN ww edd) n ir).map rJ).toArray)])
+]
 end Driver.C08
